@@ -144,7 +144,7 @@ func c16Guards(c *Ctx, ge *GuardEngine) {
 	const (
 		v2   = "rhp/v2."
 		v4   = "rhp/v4."
-		root = "call (*rhp/v2.proofAccumulator).root(…)"
+		root = "call (rhp/v2.proofAccumulator).root(…)"
 		any  = "…"
 	)
 	H := func(i int) string {
@@ -167,8 +167,8 @@ func c16Guards(c *Ctx, ge *GuardEngine) {
 		req("diff:no-leftover", v2+"VerifyDiffProof", "len({[]types.Hash256})", opNE, "const:0", "left-over tree hashes are rejected", any),
 		req("v4-leaf:proof-length", v4+"VerifyLeafProof", "len({[]types.Hash256})", opNE, "call rhp/v2.RangeProofSize(const:65536, {uint64}, ({uint64} + const:1))", "a leaf proof has exactly the length of the [i,i+1) range proof in a sector", any),
 		req("v4-leaf:root", v4+"VerifyLeafProof", root, opNE, H(1), "the recomputed sector root must equal the supplied root", any),
-		req("v4-append:old-root", v4+"VerifyAppendSectorsProof", "call (*blake2b.Accumulator).Root(…)", opNE, H(1), "the subtree roots must reproduce the old root"),
-		req("v4-append:new-root", v4+"VerifyAppendSectorsProof", "call (*blake2b.Accumulator).Root(…)", opNE, H(2), "the root after appending must equal the new root"),
+		req("v4-append:old-root", v4+"VerifyAppendSectorsProof", "call (blake2b.Accumulator).Root(…)", opNE, H(1), "the subtree roots must reproduce the old root"),
+		req("v4-append:new-root", v4+"VerifyAppendSectorsProof", "call (blake2b.Accumulator).Root(…)", opNE, H(2), "the root after appending must equal the new root"),
 		req("v4-roots:proof-length", v4+"VerifySectorRootsProof", "len({[]types.Hash256})", opNE, "call rhp/v2.RangeProofSize({uint64}, {uint64#2}, {uint64#3})", "sector-roots proofs have the fixed range-proof length", any),
 		req("v4-roots:root", v4+"VerifySectorRootsProof", root, opNE, H(1), "the recomputed contract root must equal the supplied root", any),
 		req("v4-free:leaf-count", v4+"VerifyFreeSectorsProof", "len(call rhp/v2.sectorsChanged(call rhp/v4.convertFreeActions({[]uint64}, {uint64}), {uint64}))", opNE, "len({[]types.Hash256#2})", "one leaf hash per changed sector"),
